@@ -152,19 +152,40 @@ func (n *ParallelNode) Run(ctx context.Context) error {
 		}
 
 		// try sending the job to a worker
-		select {
-		case workerJobs <- job:
-			// we submitted the job to a worker, give it to the coordinator as well
-			coordinatorJobs <- job
-		case <-workersDone:
-			// no worker is running anymore, they must have all failed, nack the
-			// message and stop running
-			noWorkerRunningErr := cerrors.New("no worker is running")
-			err = msg.Nack(noWorkerRunningErr, n.ID())
-			if err != nil {
-				return err
+		var jobErr error
+		for submitted := false; !submitted; {
+			select {
+			case workerJobs <- job:
+				// we submitted the job to a worker, give it to the coordinator as well
+				coordinatorJobs <- job
+				submitted = true
+			case workerErr := <-errs:
+				// A previous job failed. Keep reading errs while we wait for
+				// a free worker: the coordinator reports one error per failed
+				// job and errs only has room for n.Workers of them, so with
+				// several failed jobs in a row it would block on the full
+				// channel, the workers would block handing their jobs to the
+				// coordinator, no worker would ever become free again and the
+				// node - and with it the pipeline - would hang instead of
+				// failing. The error is returned once the job is handed over.
+				if jobErr == nil {
+					jobErr = workerErr
+				} else {
+					n.logger.Warn(ctx).Err(workerErr).Msg("parallel worker node failed")
+				}
+			case <-workersDone:
+				// no worker is running anymore, they must have all failed, nack the
+				// message and stop running
+				noWorkerRunningErr := cerrors.New("no worker is running")
+				err = msg.Nack(noWorkerRunningErr, n.ID())
+				if err != nil {
+					return err
+				}
+				return noWorkerRunningErr
 			}
-			return noWorkerRunningErr
+		}
+		if jobErr != nil {
+			return jobErr
 		}
 	}
 }
